@@ -294,7 +294,7 @@ def cases(tier, rng):
             except Bad:
                 break
         kind = rng.choice(["program", "program", "eqchar", "copy_indep"])
-        case = {"op": kind, "enc": enc, "v": _val_json(val), "ops": ops, "npint": rng.random() < 0.4,
+        case = {"op": kind, "enc": enc, "v": _val_json(val), "ops": ops, "npint": rng.random() < 0.4, "from_str": rng.random() < 0.5,
                 "vform": rng.choice(["str", "str", "base", "enc"])}
         if kind == "copy_indep":
             # after the program: c = r.copy(); assign into c; the original r must be unchanged (and vice versa)
@@ -338,10 +338,21 @@ def nontrivial(c):
 
 
 # ------------------------------------------------------------------ implementation
+_FROM_STR = False
+
+
 def _build(enc_name, vj):
     import bionumpy as bnp
     from bionumpy.encoded_array import EncodedArray, EncodedRaggedArray
     E = _enc(enc_name)
+    if _FROM_STR:      # build through the public string entry (as users do), not from raw codes
+        # (a BaseEncoding array made from a str literal is a read-only view of the Python bytes object — np.frombuffer —
+        #  so, like the repository's own tests, take a copy before any item assignment; not counted against the property)
+        if vj["t"] == "flat" and all(_dec_table(enc_name)[c] < 128 for c in vj["l"]):
+            r = bnp.as_encoded_array(_text_of(vj["l"], enc_name), E)
+            return r if r.raw().flags.writeable else r.copy()
+        if vj["t"] == "rag" and vj["r"]:
+            return bnp.as_encoded_array([_text_of(r, enc_name) for r in vj["r"]], E)
     dt = np.uint8
     if vj["t"] == "flat":
         return EncodedArray(np.array(vj["l"], dtype=dt), E)
@@ -395,8 +406,9 @@ def impl(c):
         f = _build("BaseEncoding", {"t": "flat", "l": c["s"]})
         return [[int(x) for x in row.raw()] for row in split(f, sep=chr(c["sep"]))]
     enc = c["enc"]
-    global _NPINT
+    global _NPINT, _FROM_STR
     _NPINT = bool(c.get("npint"))
+    _FROM_STR = bool(c.get("from_str"))
     vform = c.get("vform", "str")
 
     def value(codes_):
@@ -586,3 +598,20 @@ def impl_live(c):
     if v is None:
         raise ValueError("no live value")
     return v, (lambda obj: orig_observe(obj, c["enc"]))
+
+
+def mutate_live(obj, c):
+    """modify a program result in place through item assignment of another letter of the encoding"""
+    from bionumpy.encoded_array import EncodedArray, EncodedRaggedArray
+    flat = obj.ravel() if isinstance(obj, EncodedRaggedArray) else obj
+    if not isinstance(flat, EncodedArray) or flat.data.ndim == 0 or flat.size == 0:
+        return False
+    raw = flat.raw()
+    if not raw.flags.writeable:
+        return False
+    dec = _dec_table(c["enc"])
+    if c["enc"] == "BaseEncoding":
+        raw[0] = 65 if int(raw[0]) != 65 else 67
+    else:
+        raw[0] = (int(raw[0]) + 1) % len(ALPH[c["enc"]])
+    return True
